@@ -466,17 +466,23 @@ CHECKS = {
                 "completeness, nearest-anchor selection on all weak "
                 "orderings of the anchor distances (exhaustive), peak "
                 "network shape, parameter-use = declared dimension, the "
-                "published system equations, input immutability, and the "
-                "parameter-counter protocol of the network code generator.",
-        "design_ref": "DESIGN.md section 4, C16",
-        "note": "Decides D16.0-D16.6. Does not decide: the value returned "
-                "by the min-ANN minimisers, generated network code beyond "
-                "the generator rules. Trusted: CPython ast, kernel "
+                "published system equations (with matching declared "
+                "dimensions), input immutability, the factories' dispatch "
+                "guards, and - without generating code - the network "
+                "generator: parameter-counter protocol, layer protocol "
+                "(abstract interpretation), the exact templates of the "
+                "emitted statements, definition of inputs, unique fresh "
+                "names, and the CodeGenerator's line/indent protocol.",
+        "design_ref": "DESIGN.md section 4, C16 and 10.2",
+        "note": "Decides D16.0-D16.8. Does not decide: the value returned "
+                "by the min-ANN minimisers, the predefined literature "
+                "controllers (no formula in the repository). Trusted: CPython ast, kernel "
                 "parameters are 1-d float arrays, float arithmetic treated "
                 "as real arithmetic.",
         "technique": "symbolic normal forms (polynomial identity) + "
                      "exhaustive weak-ordering enumeration + effects "
-                     "analysis over the AST",
+                     "analysis over the AST + abstract interpretation and "
+                     "template matching of the code generator",
     },
 }
 
